@@ -40,12 +40,25 @@ func main() {
 	c := core.NewCtx(id)
 	checks.CurCtx = c
 	if replay != "" {
-		rf, ok := checks.Replays[id]
+		if rf, ok := checks.Replays[id]; ok {
+			if rc := rf(c, replay); rc != 3 {
+				os.Exit(rc)
+			}
+		}
+		// generic replay: every check is a deterministic function of (tier, seed); run it again with the
+		// recorded ones and report whether the recorded violation recurs (evidence is not rewritten)
+		tier, seed, what, ok := core.ReadReplay(replay)
 		if !ok {
-			fmt.Printf("no replay support for %s\n", id)
+			fmt.Println("cannot read replay file", replay)
 			os.Exit(2)
 		}
-		os.Exit(rf(c, replay))
+		os.Setenv("VERIF_TIER", tier)
+		os.Setenv("VERIF_SEED", fmt.Sprint(seed))
+		c = core.NewCtx(id)
+		checks.CurCtx = c
+		c.ReplayOf, c.ReplayPath = what, replay
+		fn(c)
+		c.Finish()
 	}
 	defer func() {
 		if r := recover(); r != nil {
